@@ -415,7 +415,7 @@ class Explorer:
                  f"execs={agg['execs']} nontrivial={agg['nontrivial']} known={dict(by_finding)} "
                  f"unattributed={agg['n_unattributed']} violations={len(violations)} "
                  f"wall={wall:.1f}s")
-        if sigs:
+        if True:
             try:
                 with open(VERIF / ".cache" / f"last-{self.pid}.txt", "w") as fh:
                     for (facet, s), n in sigs.most_common():
